@@ -81,8 +81,10 @@ def PoolRel (s s' : State) (t : Tid) (fr : Frame) : Prop :=
 def TopRel (s s' : State) (t : Tid) (fr f : Frame) : Prop :=
   (∃ k, fr = .runSpUnlock (some k) ∧ f = .runSpStart k) ∨
   (fr = .runSpChk ∧ (f = .runSpUnlock none ∨
-      ∃ p p', s.pool = some p ∧ s'.pool = some p' ∧ f = .runSpUnlock (some p.nextCtx) ∧ p'.nextCtx = p.nextCtx + 1)) ∨
-  (∃ i w p c, fr = .cleanAt i ∧ f = .cleanJoin i w ∧ s.pool = some p ∧ c ∈ p.ctxs ∧ c.terminated = true ∧ c.tid = some w) ∨
+      ∃ p p', s.pool = some p ∧ s'.pool = some p' ∧ f = .runSpUnlock (some p.nextCtx) ∧ p'.nextCtx = p.nextCtx + 1 ∧
+        p'.ctxs = p.ctxs ++ [⟨p.nextCtx, none, false⟩])) ∨
+  (∃ i w p c, fr = .cleanAt i ∧ f = .cleanJoin i w ∧ s.pool = some p ∧ s'.pool = some p ∧ p.ctxs[i]? = some c ∧
+      c ∈ p.ctxs ∧ c.terminated = true ∧ c.tid = some w) ∨
   (f = fr ∧ s'.pool = none)
 
 theorem poolRel_of_same {s s' : State} {t : Tid} {fr : Frame}
@@ -204,7 +206,7 @@ theorem ctxStep_of (s : State) (t : Tid) (th : Thread) (fr : Frame) (rest : List
             · exact Or.inl hc'
             · exact Or.inr (Or.inl ⟨rfl, hc', rfl⟩)
           · intro _
-            exact Or.inr (Or.inl ⟨rfl, Or.inr ⟨p, _, hp, rfl, rfl, rfl⟩⟩)
+            exact Or.inr (Or.inl ⟨rfl, Or.inr ⟨p, _, hp, rfl, rfl, rfl, rfl⟩⟩)
         · have e : (stepFrame s t th .runSpChk).1 = setThread s t (th.cont [.runSpUnlock none]) := by
             simp [stepFrame, hp, hlt]
           rw [e]
@@ -254,7 +256,7 @@ theorem ctxStep_of (s : State) (t : Tid) (th : Thread) (fr : Frame) (rest : List
                 simp [stepFrame, hp, hi, hterm, htid]
               rw [e]
               exact res_push (poolRel_refl rfl) (upd_same _ _ _) (cont_stack1 _ hst) hrest
-                (fun _ => Or.inr (Or.inr (Or.inl ⟨i, w, p, c, rfl, rfl, hp, hcm, hterm, htid⟩)))
+                (fun _ => Or.inr (Or.inr (Or.inl ⟨i, w, p, c, rfl, rfl, hp, hp, hi, hcm, hterm, htid⟩)))
             | none =>
               have e : (stepFrame s t th (.cleanAt i)).1 = setThread (setPool s { p with ctxs := p.ctxs.eraseIdx i }) t (th.cont [.cleanAt i]) := by
                 simp [stepFrame, hp, hi, hterm, htid]
@@ -394,7 +396,7 @@ theorem ctxInv_step {cfg : Config} {s s' : State} {t : Tid} {o : List String}
       pendK f = some k →
       fr = .runSpUnlock (some k) ∨ (fr = .runSpChk ∧ ∃ p, s.pool = some p ∧ k = p.nextCtx ∧ p'.nextCtx = p.nextCtx + 1) := by
     intro p' f k hp' hf hk
-    rcases htopT f hf (pendK_topOnly hk) with ⟨k0, h1, h2⟩ | ⟨h1, h2 | ⟨p, p2, h2, h3, h4', h5⟩⟩ | ⟨i, w, p, c, _, h2, _⟩ | ⟨_, h2⟩
+    rcases htopT f hf (pendK_topOnly hk) with ⟨k0, h1, h2⟩ | ⟨h1, h2 | ⟨p, p2, h2, h3, h4', h5, _⟩⟩ | ⟨i, w, p, c, _, h2, _⟩ | ⟨_, h2⟩
     · subst h2; simp only [pendK, Option.some.injEq] at hk; subst hk; exact Or.inl h1
     · subst h2; simp [pendK] at hk
     · subst h4'; simp only [pendK, Option.some.injEq] at hk; subst hk
@@ -524,7 +526,7 @@ theorem ctxInv_step {cfg : Config} {s s' : State} {t : Tid} {o : List String}
     intro u i w hf
     by_cases hu : u = t
     · subst hu
-      rcases htopT _ hf rfl with ⟨k0, _, h2⟩ | ⟨_, h2 | ⟨p, p2, _, _, h4', _⟩⟩ | ⟨i', w', p, c, _, h2, h3, h4', h5, h6⟩ | ⟨h2, _⟩
+      rcases htopT _ hf rfl with ⟨k0, _, h2⟩ | ⟨_, h2 | ⟨p, p2, _, _, h4', _⟩⟩ | ⟨i', w', p, c, _, h2, h3, _, _, h4', h5, h6⟩ | ⟨h2, _⟩
       · cases h2
       · cases h2
       · cases h4'
